@@ -42,7 +42,11 @@ class R(opscalar.ScalarOp):
             self, name=name, duration=duration, **kwargs
         )
 
-        # init arrays
+        # init arrays (parameters aligned from the first axis, also for the derivatives of a single parameter)
+        if r0 is None:
+            rT, rL = common.expand_arrays(rT, rL, append=True)
+        else:
+            rT, rL, r0 = common.expand_arrays(rT, rL, r0, append=True)
         arr, arr0 = evolution_operator(rT, rL, r0)
 
         # derivatives
